@@ -158,6 +158,27 @@ def hexb(h):
     return blit(bytes.fromhex(h))
 
 
+def canon_ascii(raw):
+    """canonical ASCII form of a name, computed without the idna crate: per label, lower-case, and a non-ASCII label
+    becomes xn-- + punycode (Python's codec; it reproduces the IDN conversion of every rule of the shipped list).
+    A name this cannot convert is used lower-cased as given (the oracle then decides on those bytes)."""
+    try:
+        s = raw.decode("utf-8")
+    except UnicodeDecodeError:
+        return raw
+    out = []
+    for l in s.split("."):
+        l = l.lower()
+        if l.isascii():
+            out.append(l)
+        else:
+            try:
+                out.append("xn--" + l.encode("punycode").decode("ascii"))
+            except Exception:
+                return s.lower().encode("utf-8")
+    return ".".join(out).encode("ascii")
+
+
 def term(c, o):
     if c["kind"] == "web":
         dom = "None" if o["domain"] is None else "(Some %s)" % hexb(o["domain"])
@@ -166,6 +187,8 @@ def term(c, o):
         origin = "(Android %s)" % hexb(o["domain"])
     rp = "None" if c["rp"] is None else "(Some %s)" % b(c["rp"])
     puny = "true" if o.get("puny") else "false"
+    ascii_ = "None" if o.get("ascii") is None else "(Some %s)" % hexb(o["ascii"])
+    canon = blit(canon_ascii(bytes.fromhex(o["eff"])) if o.get("eff") is not None else b"")
     r = o.get("res", {})
     if "ok" in r: impl = "(Some (inl %s))" % hexb(r["ok"])
     elif "err" in r: impl = "(Some (inr %d))" % r["err"]
@@ -174,7 +197,8 @@ def term(c, o):
     valid = "None" if v is None or "v" not in v else "(Some %s)" % ("true" if v["v"] else "false")
     e = o.get("e2e")
     e2e = "None" if not e else "(Some (%s, [%s]))" % ("true" if e["ok"] else "false", "; ".join(hexb(x) for x in e["stored"]))
-    return "CRp %s %s %s %s %s %s %s %s" % ("true" if c["allow"] else "false", PK[c["prov"]], origin, rp, puny, impl, valid, e2e)
+    return "CRp %s %s %s %s %s %s %s %s %s %s" % ("true" if c["allow"] else "false", PK[c["prov"]], origin, rp, puny, ascii_, canon,
+                                                impl, valid, e2e)
 
 
 def run_cases(run, binary, cases, tag):
@@ -188,8 +212,8 @@ def run_cases(run, binary, cases, tag):
 
 def explain(t):
     return common.coq_show(PROP, PREAMBLE,
-        "match %s with CRp allow pk o rp puny impl v e => (res_code (assert_domain allow (provider_of pk) (fun _ => puny) o rp), "
-        "impl, match impl with Some r => c01_ok allow pk o rp r | None => false end) end" % t)
+        "match %s with CRp allow pk o rp puny ascii canon impl v e => (res_code (assert_domain allow (provider_of pk) (fun _ => puny) "
+        "(fun _ => ascii) o rp), impl, match impl with Some r => c01_ok allow pk o rp canon r | None => false end) end" % t)
 
 
 def check(run):
@@ -276,7 +300,7 @@ def check(run):
         "model_disagreements": len(res["agree"]), "oracle_failures": len(res["oracle"]), "crashes": len(crashed),
     })
     run.assumptions += ["origins are what url::Url::parse makes of the URL text", "Android hosts are used as given (not canonicalised by the library)",
-                        "public suffix decided on the bytes as given (rules are lower-case punycode)"]
+                        "public suffix decided on idna::domain_to_ascii of the effective RP ID (fix 1b1a1a4); the oracle uses an independently computed canonical form (Python punycode + lower-casing)"]
 
 
 def corpus():
